@@ -5,6 +5,7 @@ from gzip import GzipFile
 from boltons.strutils import gzip_bytes
 
 from .core import Middleware
+from ..errors import HTTPException
 
 
 class GzipMiddleware(Middleware):
@@ -13,6 +14,11 @@ class GzipMiddleware(Middleware):
 
     def request(self, next, request):
         resp = next()
+        if isinstance(resp, HTTPException):
+            # returned (not raised) errors, e.g. the routing 404/405, are
+            # bare BaseResponses and are re-rendered after the middleware
+            # chain has run, so they must not be compressed here
+            return resp
         # TODO: shortcut redirects/304s/responses without content?
         resp.vary.add('Accept-Encoding')
         if resp.content_encoding or not request.accept_encodings['gzip']:
